@@ -24,7 +24,7 @@ func NewCond(l Locker) *Cond { return sync.NewCond(l) }
 type Mutex struct{ mu sync.Mutex }
 
 func (m *Mutex) Lock() {
-	core.LockAcquire(m, true)
+	core.LockAcquire(m, true, false)
 	m.mu.Lock()
 }
 
@@ -48,7 +48,7 @@ func (m *Mutex) TryLock() bool {
 type RWMutex struct{ mu sync.RWMutex }
 
 func (m *RWMutex) Lock() {
-	core.LockAcquire(m, true)
+	core.LockAcquire(m, true, true)
 	m.mu.Lock()
 }
 
@@ -61,7 +61,7 @@ func (m *RWMutex) Unlock() {
 }
 
 func (m *RWMutex) RLock() {
-	core.LockAcquire(m, false)
+	core.LockAcquire(m, false, true)
 	m.mu.RLock()
 }
 
